@@ -29,10 +29,8 @@ import (
 	"hash/maphash"
 	"os"
 	"runtime"
-	"runtime/debug"
 	"runtime/pprof"
 	"sort"
-	"strconv"
 	"strings"
 	"sync"
 	"time"
@@ -780,10 +778,6 @@ func run(c *vf.Ctx) {
 	k := &checker{c: c, vals: &cbref.Values{Pool: pool}, seed: maphash.MakeSeed(), fixedMax: 4096,
 		outcomes: map[string]int64{}, counts: map[string]int64{}}
 	k.scratch.New = func() any { b := make([]byte, 1<<16+1024); return &b }
-	if g := os.Getenv("C22_GOGC"); g != "" {
-		n, _ := strconv.Atoi(g)
-		debug.SetGCPercent(n)
-	}
 	defer func() {
 		c.Set("outcome_counts", k.outcomes)
 		for a, n := range k.counts {
@@ -833,9 +827,6 @@ func run(c *vf.Ctx) {
 	} else {
 		k.familyB(3, []int{128, 256, 65536}, "B")
 		phase("B")
-		if os.Getenv("C22_ONLY") == "B" {
-			return
-		}
 		k.familyA("all_sizes", 0, 3, sizes)
 		phase("A_all_sizes")
 		k.familyA("sizes_upto_256", 4, 4, small)
